@@ -24,6 +24,8 @@ EXPLANATION = (
     " Added in rounds 6 and 7: (O12.3) an accepted configuration's item delimiter exists in the declared encoding."
     " Added in rounds 8 and 9: (O12.3) item delimiter, quote and escape character survive encode().decode() in the"
     " declared encoding. (O12.8) a row writer given a path closes the file it opened."
+    " Added in round 10: (O14.1, shared with C14) every row the delimited writer emits ends with exactly the"
+    " declared line delimiter."
 )
 ASSUMPTIONS = ["the csv module writes and reads consistently for a dialect without contradictory roles"]
 
